@@ -215,3 +215,15 @@ Theorem C13_release_tag_follows_plan : forall a v child,
   release_tasks a (NTag v child).
 Proof. exact release_tag_follows_plan. Qed.
 Print Assumptions C13_release_chunked_follows_plan.
+
+(* "The streaming decoder, the low-level encoders, fixed-buffer serialization and size computation request no memory at all", as
+   written in C: in the call graph regenerated from the AST of this run neither the allocator pointers nor any libc allocation
+   function is reachable from cbor_stream_decode, the 27 cbor_encode_* functions, cbor_serialize and the typed serializers, or
+   cbor_serialized_size; the only calls through a pointer are the client's callbacks invoked by cbor_stream_decode *)
+Theorem C13_no_request_reachable :
+  match gen_callgraph with [] => true | _ => forallb fn_allocfree no_alloc_api end = true.
+Proof. exact bridge_no_alloc_reachable. Qed.
+Print Assumptions C13_no_request_reachable.
+Example C13_no_request_reachable_nonvacuous :
+  match gen_callgraph with [] => true | _ => negb (fn_allocfree "cbor_load"%string) && negb (getter_pure "cbor_array_get"%string) end = true.
+Proof. exact cg_closure_sees_the_allocator. Qed.
